@@ -7,6 +7,7 @@ import (
 	"io/fs"
 	"path"
 	"path/filepath"
+	"strconv"
 
 	"github.com/pojntfx/stfs/internal/converters"
 	"github.com/pojntfx/stfs/internal/records"
@@ -129,8 +130,17 @@ func Fetch(
 			return err
 		}
 
-		if _, err := io.Copy(dstFile, verifier); err != nil {
+		restored, err := io.Copy(dstFile, verifier)
+		if err != nil {
 			return err
+		}
+
+		// Some decoders treat a stream that has been cut off as an empty one, so check what has been restored
+		// against the size recorded when the content was archived
+		if uncompressedSize, ok := hdr.PAXRecords[records.STFSRecordUncompressedSize]; ok {
+			if size, err := strconv.ParseInt(uncompressedSize, 10, 64); err == nil && size != restored {
+				return io.ErrUnexpectedEOF
+			}
 		}
 
 		if err := verify(); err != nil {
